@@ -269,7 +269,12 @@ def r179(ctx, ut):
             mult_names.add(n.targets[0].id)
             lookups.append(unparse(n.value.slice))
     prods = [n for n in walk_shallow(fn) if isinstance(n, ast.BinOp) and isinstance(n.op, ast.Mult)
-             and {unparse(n.left), unparse(n.right)} & {value} and ({unparse(n.left), unparse(n.right)} & (mult_names | {f'cls._units[{unit}]'}))]
+             and {unparse(n.left), unparse(n.right)} & {value}
+             and ({unparse(n.left), unparse(n.right)} & (mult_names | {f'cls._units[{unit}]', 'cls._units[cls._baseunit]'}))]
+    for n in prods:                                   # direct lookups inside the product (no multiplier variable)
+        for side in (n.left, n.right):
+            if isinstance(side, ast.Subscript) and unparse(side.value) == 'cls._units':
+                lookups.append(unparse(side.slice))
     other_arith = [n for n in walk_shallow(fn) if isinstance(n, ast.BinOp) and n not in prods and not isinstance(n.op, ast.Mod)]
     passed = [n for n in walk_shallow(fn) if isinstance(n, ast.Call) and unparse(n.func).endswith('__new__') and len(n.args) >= 2]
     ok_flow = bool(prods) and not other_arith and bool(passed) and all(
